@@ -61,8 +61,12 @@ func (c *MessageReader) Read(msg any) error {
 	}
 
 	// Decode message bytes.
+	//
+	// The stream decoder recurses once per read of an incomplete item, so make sure that every
+	// read fills the decoder's buffer (up to the end of the message) no matter how the underlying
+	// reader fragments the message. Otherwise a peer trickling a large item could exhaust the stack.
 	r := io.LimitReader(c.reader, int64(length))
-	dec := NewDecoderRPC(r)
+	dec := NewDecoderRPC(NewFullReader(r))
 	if err := dec.Decode(msg); err != nil {
 		return err
 	}
